@@ -1,6 +1,6 @@
 SPECIFICATION TraceSpec
 CONSTANTS
-  TolerateLLTD0 = FALSE
+  TolerateForeignAnchor = FALSE
 INVARIANTS C09_Reproduces
 POSTCONDITION Post
 CHECK_DEADLOCK FALSE
